@@ -23,6 +23,7 @@ From SCC Require Import Base.Sexp Lang.AxSyn Lang.FunSyn Lang.CoreSyn Sem.AxSem 
      Model.Backend Model.Fun2Core Model.Focus Model.FocusCheck Model.Shrink Model.Linearize Model.LinCheck Model.X86 Model.Runtime
      Proof.Compose Proof.ComposeFocus Proof.FocusFrag Proof.UqAeq.
 From SCC Require Import Model.FocusGuard.
+From SCC Require Import Sem.FsCheck Sem.FsFrag2 Proof.Compose2.
 Import ListNotations.
 Open Scope Z_scope.
 
@@ -91,3 +92,27 @@ Theorem C01_compile_correct_focus_discharged_partial :
      bytes_of_string (render_prints (fst o)) = flat_map runtime_bytes (fst o)).
 Proof. exact compile_correct_focus_discharged. Qed.
 Print Assumptions C01_compile_correct_focus_discharged_partial.
+
+(* THE COMPOSITION WITH THE SHRINK LINK DISCHARGED (round 2): instead of hypothesis H_shrink, boolean conditions
+   on the focused program f, which the statement already names: it lies in the fragment of
+   C04_shrink_correct_fragment2 (Sem/FsFrag2.v: frag2_prog f = names_ok f && main_int f - identifiers with the
+   same id spelled alike, integer entry point; decls_ok f - parameter and xtor field types declared) and passes
+   the focused-Core checkers (wt_fs, unique_binders, ids_bounded; proved of `focus` under C03/C12 except for the
+   typing part, which is hypothesis H_focus_wt of C12).  The whole language is covered: data and codata types,
+   continuations, critical pairs, lifted statements.  Remaining hypotheses: H_fun2core, H_focus, H_x86. *)
+Theorem C01_compile_correct_shrink_discharged_partial :
+  H_fun2core -> H_focus -> H_x86 ->
+  forall (p : fcprog) (c : cprog) (f : fsprog) (a : prog) (cs : list xcode) (nargs : nat) (lc lc' : N)
+         (args : list Z) (n : nat) (o : obs),
+    annotated_fcprog p = true -> effect_sequenced p = true -> barendregt p = true ->
+    compile_prog p = Fun2Core.Ok c -> pre_check c = true -> focus_wf c = true ->
+    focus_prog c = Backend.Ok f ->
+    frag2_prog f = true -> decls_ok f = true -> wt_fs f = true -> unique_binders f = true -> ids_bounded f = true ->
+    shrink_prog f = SOk a -> prog_ok a = true ->
+    x86_compile (linearize a) lc = Backend.Ok (cs, nargs, lc') ->
+    run_fun n p args = o -> out_ok o ->
+    (exists outer inner, fst (run_x86 outer inner cs args) = o) /\
+    (Forall (fun pz => in_i64 (snd pz)) (fst o) ->
+     bytes_of_string (render_prints (fst o)) = flat_map runtime_bytes (fst o)).
+Proof. exact compile_correct_fragment2. Qed.
+Print Assumptions C01_compile_correct_shrink_discharged_partial.
